@@ -341,6 +341,23 @@ example :
       some (1, [109, 105, 110, 117, 115], ⟨⟨1, []⟩, .inl ⟨[1], some false, [5]⟩, ⟨1, none, .fil 1, [102, 105, 108, 108], false⟩⟩)⟩
     glueWf g = true ∧ glueFollow g [.cs [114, 101, 108, 97, 120] false] = true := by decide +kernel
 
+/-- **A glue ends after its shrink part.** When the `minus` part is written, text that follows — even text spelling
+    `plus` — is not part of the glue: the follow condition of `glue_denotes` asks nothing about a `plus` keyword then. -/
+theorem glue_ends_after_shrink (g : GlueLit) (rest : List Tok) (d : DecBody) (k : Nat) (w : List Nat) (m : DimLit)
+    (hb : g.dim.body = .inl d) (hm : g.minus = some (k, w, m)) :
+    glueFollow g rest = (noSp rest && pmFollow kwPlus g.plus (pmRender g.minus ++ rest) && filOK m rest) := by
+  simp [glueFollow, hb, hm, pmFollow]
+
+/-- non-vacuity: `3pt minus 1pt ` followed by `plus two` conforms, and the model leaves `plus two` -/
+example :
+    let pt : UnitLit := ⟨0, none, .phys 0, [112, 116], false⟩
+    let g : GlueLit := ⟨⟨0, []⟩, ⟨⟨0, []⟩, .inl ⟨[3], none, []⟩, pt⟩, none,
+      some (1, [109, 105, 110, 117, 115], ⟨⟨1, []⟩, .inl ⟨[1], none, []⟩, ⟨0, none, .phys 0, [112, 116], true⟩⟩)⟩
+    let rest : List Tok := [.ch 112, .ch 108, .ch 117, .ch 115, .sp, .ch 116, .ch 119, .ch 111]
+    glueWf g = true ∧ glueFollow g rest = true ∧
+      (readGlue (g.render ++ rest)).toOption.map (fun r => (r.1.stretch, r.1.shrink.map decode, r.2)) =
+        some (none, some (0, 65536), rest) := by decide +kernel
+
 /-- The pinned code before the D14 repair read `1pt plus 2fil` as `2fill` (kernel-checked witness). -/
 theorem asIs_fil_counterexample :
     (readGlueAsIs [.ch 49, .ch 112, .ch 116, .sp, .ch 112, .ch 108, .ch 117, .ch 115, .sp, .ch 50, .ch 102, .ch 105, .ch 108]).toOption.map
